@@ -279,6 +279,10 @@ enum Corruption {
     AuthWrongPrefix,
     AuthBadChars,
     AuthNonAscii,
+    /// the bare token without any scheme / cookie name
+    AuthBare,
+    /// the token under another scheme (no space) or another cookie name
+    AuthOtherName,
     BodyMalformed,
     BodyUnknownMember,
     BodyWrongType,
@@ -318,7 +322,7 @@ fn corruptions_for(arg: &Arg) -> Vec<Corruption> {
             }
             v
         }
-        Loc::AuthHeader | Loc::AuthCookie(_) => vec![AuthMissing, AuthWrongPrefix, AuthBadChars, AuthNonAscii],
+        Loc::AuthHeader | Loc::AuthCookie(_) => vec![AuthMissing, AuthWrongPrefix, AuthBadChars, AuthNonAscii, AuthBare, AuthOtherName],
         Loc::Body => vec![BodyMalformed, BodyUnknownMember, BodyWrongType, BodyNoContentType],
     }
 }
@@ -391,6 +395,14 @@ fn render(r: &mut Rng, ep: &Ep, corrupt: bool) -> Rendered {
                     Some(Corruption::AuthMissing) => None,
                     Some(Corruption::AuthWrongPrefix) => Some(format!("Basic {}", tok).into_bytes()),
                     Some(Corruption::AuthBadChars) => Some(format!("{}{} !{}", prefix, tok, bad).into_bytes()),
+                    Some(Corruption::AuthBare) => Some(tok.clone().into_bytes()),
+                    Some(Corruption::AuthOtherName) => Some(
+                        match arg.loc {
+                            Loc::AuthCookie(_) => format!("OTHER_COOKIE={}", tok),
+                            _ => format!("Token={}", tok),
+                        }
+                        .into_bytes(),
+                    ),
                     _ => Some([format!("{}{}", prefix, tok).as_bytes(), b"\xff\xfe"].concat()),
                 };
                 if c.is_some() {
